@@ -55,3 +55,8 @@ pub fn checksum64_fold(buf: &[u8]) -> u64 {
 pub fn instant_now_zero() -> std::time::Instant {
     unsafe { std::mem::zeroed() }
 }
+/// Deallocation is a no-op (memory is leaked): freeing an object whose identity is symbolic (which record was evicted /
+/// removed) makes CBMC case-split its deallocation bookkeeping over every candidate object and costs 10-100x.
+/// Consequence: use-after-free is NOT visible in harnesses that use this stub; the thorough tier's memory-safety
+/// runs do not use it.
+pub unsafe fn dealloc_noop(_ptr: *mut u8, _layout: std::alloc::Layout) {}
